@@ -25,7 +25,7 @@ MANIFEST = {
 
 
 def jobs(tier, mutant=None):
-    return builderjobs.select(tier, ["B1", "B2"], r'\bC01\b', mutant) + scanjobs.select(tier, ["S1"], r'\bC01\b', mutant) + outdirtyjobs.select(tier, ["O1", "O3"], r'\bC01\b', mutant)
+    return builderjobs.select(tier, ["B1", "B2"], r'\bC01\b', mutant) + scanjobs.select(tier, ["S1", "S3"], r'\bC01\b', mutant) + outdirtyjobs.select(tier, ["O1", "O3"], r'\bC01\b', mutant)
 
 
 def _m(target, old, new):
